@@ -4,6 +4,7 @@ Contracts for ml_pipeline_engine/dag/storage.py — data structure against an ab
 Every postcondition is stated over the *whole* view, and every method has a frame clause.
 """
 import z3
+from pyvc.values import FA
 
 from pyvc.contract import Contract, ExcCase, LoopSpec, contract
 from pyvc.interp import CallArgs
@@ -49,7 +50,7 @@ class HiddenDict_init(HDContract):
     def ensures(self, it, pre, post, a, res):
         v = HDView(post, a.self)
         k = z3.Const('k', PyV)
-        return [('empty', z3.ForAll([k], z3.And(z3.Not(v.data.has(k)), z3.Not(v.hidden.contains(k)))))]
+        return [('empty', FA([k], z3.And(z3.Not(v.data.has(k)), z3.Not(v.hidden.contains(k)))))]
 
     def apply_at_call(self, it, fi, self_val, ca):
         # constructor: allocate the fields (they do not exist before the call)
@@ -70,9 +71,11 @@ class HiddenDict_get(HDContract):
         st = it.st
         return new_hidden_dict(it, 'hd'), CallArgs([SymV(st.fresh_val('key')), SymB(st.fresh_bool('wh'))])
 
+    def result_term(self, it, pre, a):
+        return self.hd(pre, a).get(T(a.key, it.st), B(a.with_hidden))
+
     def ensures(self, it, pre, post, a, res):
-        v = self.hd(pre, a)
-        return [('result', T(res, it.st) == v.get(T(a.key, it.st), B(a.with_hidden)))]
+        return [('result', T(res, it.st) == self.result_term(it, pre, a))]
 
 
 @contract
@@ -84,9 +87,11 @@ class HiddenDict_exists(HDContract):
         st = it.st
         return new_hidden_dict(it, 'hd'), CallArgs([SymV(st.fresh_val('key')), SymB(st.fresh_bool('wh'))])
 
+    def result_term(self, it, pre, a):
+        return self.hd(pre, a).exists(T(a.key, it.st), B(a.with_hidden))
+
     def ensures(self, it, pre, post, a, res):
-        v = self.hd(pre, a)
-        return [('result', B(res) == v.exists(T(a.key, it.st), B(a.with_hidden)))]
+        return [('result', B(res) == self.result_term(it, pre, a))]
 
 
 @contract
@@ -176,9 +181,11 @@ def _getter(name_, field_, props_=ALL_NODE_PROPS):
         def setup(self, it):
             return new_storage(it), CallArgs(self.fresh(it, 'v', 'b'))
 
+        def result_term(self, it, pre, a):
+            return getattr(self.sv(pre, a), self.field).get(T(a.node_id, it.st), B(a.with_hidden))
+
         def ensures(self, it, pre, post, a, res):
-            v = getattr(self.sv(pre, a), self.field)
-            return [('result', T(res, it.st) == v.get(T(a.node_id, it.st), B(a.with_hidden)))]
+            return [('result', T(res, it.st) == self.result_term(it, pre, a))]
     C.__name__ = f'Storage_{name_}'
     return contract(C)
 
@@ -192,9 +199,11 @@ def _exists(name_, field_):
         def setup(self, it):
             return new_storage(it), CallArgs(self.fresh(it, 'v', 'b'))
 
+        def result_term(self, it, pre, a):
+            return getattr(self.sv(pre, a), self.field).exists(T(a.node_id, it.st), B(a.with_hidden))
+
         def ensures(self, it, pre, post, a, res):
-            v = getattr(self.sv(pre, a), self.field)
-            return [('result', B(res) == v.exists(T(a.node_id, it.st), B(a.with_hidden)))]
+            return [('result', B(res) == self.result_term(it, pre, a))]
     C.__name__ = f'Storage_{name_}'
     return contract(C)
 
@@ -286,9 +295,11 @@ class Storage_exists_node_error(StContract):
     def setup(self, it):
         return new_storage(it), CallArgs(self.fresh(it, 'v', 'b'))
 
+    def result_term(self, it, pre, a):
+        return PyV.is_exc(self.sv(pre, a).R.get(T(a.node_id, it.st), B(a.with_hidden)))
+
     def ensures(self, it, pre, post, a, res):
-        r = self.sv(pre, a).R.get(T(a.node_id, it.st), B(a.with_hidden))
-        return [('result', B(res) == PyV.is_exc(r))]
+        return [('result', B(res) == self.result_term(it, pre, a))]
 
 
 @contract
@@ -370,9 +381,12 @@ class Storage_exists_active_rec_subgraph(StContract):
     def setup(self, it):
         return new_storage(it), CallArgs(self.fresh(it, 'v', 'v'))
 
-    def ensures(self, it, pre, post, a, res):
+    def result_term(self, it, pre, a):
         # exists(key) is called with the default with_hidden=True
-        return [('result', B(res) == self.sv(pre, a).P.data.has(_pair(a, it)))]
+        return self.sv(pre, a).P.data.has(_pair(a, it))
+
+    def ensures(self, it, pre, post, a, res):
+        return [('result', B(res) == self.result_term(it, pre, a))]
 
 
 @contract
@@ -411,8 +425,8 @@ class Storage_hide_last_execution(StContract):
         j = z3.Int('j')
         member = lambda kk: z3.Exists([j], z3.And(j >= 0, j < upto, seq.at(j) == kk))
         return [
-            ('P-hidden', z3.ForAll([k], s1.P.hidden.contains(k) == z3.Or(s0.P.hidden.contains(k), member(k)))),
-            ('R-hidden', z3.ForAll([k], s1.R.hidden.contains(k) == z3.Or(s0.R.hidden.contains(k), member(k)))),
+            ('P-hidden', FA([k], s1.P.hidden.contains(k) == z3.Or(s0.P.hidden.contains(k), member(k)))),
+            ('R-hidden', FA([k], s1.R.hidden.contains(k) == z3.Or(s0.R.hidden.contains(k), member(k)))),
             ('data-unchanged', z3.And(s1.P.data.eq(s0.P.data), s1.R.data.eq(s0.R.data))),
             ('others-unchanged', s1.others_same(s0, 'processed_nodes', 'node_results')),
         ]
